@@ -32,6 +32,7 @@ import (
 	"github.com/specterops/dawgs/cypher/models/walk"
 	"github.com/specterops/dawgs/drivers/pg/pgutil"
 	"github.com/specterops/dawgs/graph"
+	v2 "github.com/specterops/dawgs/query/v2"
 	"github.com/specterops/dawgs/verifsim/simrt"
 
 	"verifharness/simh"
@@ -51,6 +52,8 @@ type WL struct {
 type qcase struct {
 	text   string
 	params map[string]any
+	// build: the AST comes from the query builder (query/v2) instead of the parser; text is its label
+	build func() (*cypher.RegularQuery, error)
 }
 
 var corpus []qcase
@@ -154,6 +157,28 @@ func loadCorpus() {
 		qcase{text: "match (n:User)-[:MemberOf]->(g:Group) where g.objectid = 'S-1' with n, g match (g)<-[:MemberOf*1..]-(m) with m, n match (m)-[:AdminTo]->(c:Computer) where c.name = 'y' return n, c"},
 	)
 	corpus = append(corpus, rich...)
+	// builder-constructed ASTs (query/v2): values travel inside named parameter nodes; the caller also passes
+	// its own, unrelated parameter map
+	prep := func(b func() (*v2.PreparedQuery, error)) func() (*cypher.RegularQuery, error) {
+		return func() (*cypher.RegularQuery, error) {
+			p, err := b()
+			if err != nil {
+				return nil, err
+			}
+			return p.Query, nil
+		}
+	}
+	corpus = append(corpus,
+		qcase{text: "builder: node.name = $who return node", params: map[string]any{"unrelated": int64(7)}, build: prep(func() (*v2.PreparedQuery, error) {
+			return v2.New().Where(v2.Node().Property("name").Equals(v2.NamedParameter("who", "alice"))).Return(v2.Node()).Build()
+		})},
+		qcase{text: "builder: node.name = $who (bob) return node", params: map[string]any{"unrelated": int64(7), "other": "x"}, build: prep(func() (*v2.PreparedQuery, error) {
+			return v2.New().Where(v2.Node().Property("name").Equals(v2.NamedParameter("who", "bob"))).Return(v2.Node()).Build()
+		})},
+		qcase{text: "builder: node.value = $n return node", params: map[string]any{}, build: prep(func() (*v2.PreparedQuery, error) {
+			return v2.New().Where(v2.Node().Property("value").Equals(v2.NamedParameter("n", int64(42)))).Return(v2.Node()).Build()
+		})},
+	)
 	// parseable calls of the functions the translator knows with the wrong number of arguments (none, two,
 	// three): unsupported shapes are answered with an error, like everything else
 	for _, fn := range []string{"count", "date", "time", "localtime", "datetime", "localdatetime", "duration", "id", "tolower", "toupper", "labels", "type",
@@ -174,6 +199,9 @@ func loadCorpus() {
 }
 
 func parse(c qcase) (*cypher.RegularQuery, error) {
+	if c.build != nil {
+		return c.build()
+	}
 	q, err := frontend.ParseCypher(frontend.NewContext(), c.text)
 	if err != nil {
 		return nil, err
